@@ -5,6 +5,7 @@ cd "$HERE"
 TIER="${1:-quick}"; SEED="${2:-0}"; shift 2 2>/dev/null
 IDS="$*"
 [ -z "$IDS" ] && IDS="C19 C16 C17 C13 C14 C12 C18 C20 C10 C11 C09 C04 C02 C03 C06 C05 C15 C01 C08 C07"
+mkdir -p out
 ./setup.sh >/dev/null 2>&1
 for id in $IDS; do
   t0=$(date +%s)
